@@ -2,7 +2,9 @@
    1. bounds_split (splitNonUniform) and its denotation;  2. chunk_starts (the leader's splitEqual boundaries);
    3. occ_split of a product term: for ANY loop order well-formed for the transformed term the nest contributes, at
       every consistent point, the value of the term at the collapsed point and 0 elsewhere; every original point with a
-      non-zero value is represented exactly once;  4. the split at a dynamic position (after outer levels). *)
+      non-zero value is represented exactly once;  4. the split at a dynamic position (after outer levels), with a
+      static validator of the rank structure;  5. two-level stacks by composition (occupancy beneath a shape split,
+      occupancy beneath occupancy);  6. summing over the upper coordinate. *)
 From Coq Require Import ZArith List Bool Lia String Sorted.
 Require TV.Model.Rt TV.Proofs.OccLaws.
 Require Import TV.Model.Nest TV.Proofs.NestProofs TV.Model.NestPart TV.Proofs.NestPartProofs TV.Model.NestOcc.
